@@ -4,6 +4,9 @@
 typedef struct VArg { int id; } VArg;                   /* opaque argument values: identity only */
 typedef struct WArg { int id; int extra; } WArg;
 typedef struct HCLT { int opaque; } HCLT;               /* HeterCallbackList<...>: environment */
+typedef struct Handle { int index; const void *p; } Handle;   /* HeterCallbackList::Handle: prototype index + weak_ptr<void> */
+typedef struct CbV { int id; } CbV;                     /* user callbacks (identity only) */
+typedef struct CbW { int id; } CbW;
 typedef struct WPair { int first; HCLT second; } WPair;
 struct Mutex;
 typedef struct WMap { _Bool has; WPair w; struct Mutex *guard; } WMap;
